@@ -54,7 +54,7 @@ BASEOFF = (0.2, -0.1, -0.3)
 SURF_Z = 2.0
 BOX_TOP = 2.0  # BoxRegion centred at z = 1.5 with height 1
 
-QUICK_SOURCE_PROGRAMS = 24
+QUICK_SOURCE_PROGRAMS = 16
 THOROUGH_SOURCE_PROGRAMS = 240
 
 
